@@ -215,6 +215,14 @@ def _record_as_dict(cfg, L, at, e, repo, fn_mod):
     return d, ds[0].node
 
 
+def _dict_call_as_display(cfg, at, e):
+    """`dict(k1=v1, k2=v2)` (the builtin, keywords only) is the dict display {"k1": v1, "k2": v2}; anything else is returned as it is."""
+    if isinstance(e, ast.Call) and isinstance(e.func, ast.Name) and e.func.id == "dict" and not e.args and e.keywords \
+            and all(kw.arg is not None for kw in e.keywords) and not cfg.defs_of(at, "dict"):
+        return ast.copy_location(ast.Dict(keys=[ast.Constant(value=kw.arg) for kw in e.keywords], values=[kw.value for kw in e.keywords]), e)
+    return e
+
+
 def _splat_read(cfg, L, at, call, repo=None, fn_mod=None):
     """`f(**d)` / `f(*t)` where `d` is a dict display with constant keys / `t` a tuple display (given in the call or bound once to a variable that is not changed
     afterwards, every name in it having the same reaching definitions at the display as at the call): the equivalent call with explicit
@@ -232,9 +240,12 @@ def _splat_read(cfg, L, at, call, repo=None, fn_mod=None):
             nm = d.id
             ds = cfg.defs_of(at, nm)
             n_defs = sum(1 for n in cfg.nodes for x in n.defs if x.name == nm)
-            if len(ds) != 1 or ds[0].kind != "assign" or not isinstance(ds[0].value, ast.Dict) or n_defs != 1 or any(nm in n.mutates for n in cfg.nodes):
+            bound_ = _dict_call_as_display(cfg, ds[0].node, ds[0].value) if len(ds) == 1 and ds[0].kind == "assign" else None
+            if len(ds) != 1 or ds[0].kind != "assign" or not isinstance(bound_, ast.Dict) or n_defs != 1 or any(nm in n.mutates for n in cfg.nodes):
                 raise AnalysisError(f"{L.qual}: `{short(call, 50)}`: the mapping `{nm}` is not a dict display bound once and left unchanged (unrecognised form)")
-            d, d_at = ds[0].value, ds[0].node
+            d, d_at = bound_, ds[0].node
+        else:
+            d = _dict_call_as_display(cfg, at, d)
         if not isinstance(d, ast.Dict) or not all(isinstance(k, ast.Constant) and isinstance(k.value, str) for k in d.keys):
             raise AnalysisError(f"{L.qual}: `{short(call, 50)}`: keyword mapping is not a dict display with constant keys (unrecognised form)")
         for v in d.values:
@@ -2515,6 +2526,9 @@ _RB_ADAPT = ("        self.adaptive = []\n        self.buffer = OrderedDict()\n 
 _RB_ALLOC_ADAPT = ("                if k in self.adaptive:\n                    kind = np.asarray(v).dtype\n                else:\n                    kind = self.buffer[k].dtype\n"
                    "                self.buffer[k] = np.empty((self.buffer_size,) + np.asarray(v).shape, dtype=kind)\n")
 MUTANTS = [
+    # the same mapping with the observation in the place of its successor
+    {"id": "c01-ddpg-dict-call-mapping-next-is-obs", "file": "rl_blox/algorithm/ddpg.py", "rule": "R",
+     "find": "        replay_buffer.add_sample(\n            observation=obs,\n            action=action,\n            reward=reward,\n            next_observation=next_obs,\n            termination=termination,\n        )\n", "replace": "        transition = dict(observation=obs, action=action, reward=reward, next_observation=obs, termination=termination)\n        replay_buffer.add_sample(**transition)\n"},
     # the same record with the observation in the place of its successor
     {"id": "c01-dqn-record-asdict-next-is-obs", "file": "rl_blox/algorithm/dqn.py", "rule": "R", "edits": [
         ("from ..logging.logger import LoggerBase\n", "from ..logging.logger import LoggerBase\nimport typing\n\n\nclass _Transition(typing.NamedTuple):\n    observation: typing.Any\n    action: typing.Any\n    reward: typing.Any\n    next_observation: typing.Any\n    termination: typing.Any\n"),
@@ -2584,6 +2598,9 @@ MUTANTS = [
     {"id": "c01-replay-buffer-float-columns-typed-by-first-value", "file": _RB, "rule": "R6", "nth": 0, "edits": [(_RB_INIT, _RB_ADAPT % "t is float"), (_RB_ALLOC, _RB_ALLOC_ADAPT)]},
 ]
 BENIGN = [
+    # the transition built with `dict(...)`, bound once, and handed over as `**transition`
+    {"id": "c01-b-ddpg-dict-call-mapping", "file": "rl_blox/algorithm/ddpg.py",
+     "find": "        replay_buffer.add_sample(\n            observation=obs,\n            action=action,\n            reward=reward,\n            next_observation=next_obs,\n            termination=termination,\n        )\n", "replace": "        transition = dict(observation=obs, action=action, reward=reward, next_observation=next_obs, termination=termination)\n        replay_buffer.add_sample(**transition)\n"},
     # the transition carried in a class-based NamedTuple and handed over as `**record._asdict()`: the fields of the record, by name
     {"id": "c01-b-dqn-record-asdict", "file": "rl_blox/algorithm/dqn.py", "edits": [
         ("from ..logging.logger import LoggerBase\n", "from ..logging.logger import LoggerBase\nimport typing\n\n\nclass _Transition(typing.NamedTuple):\n    observation: typing.Any\n    action: typing.Any\n    reward: typing.Any\n    next_observation: typing.Any\n    termination: typing.Any\n"),
